@@ -448,18 +448,43 @@ def _r2_slipline_check(c):
     ab, at = math.atan2(vb, ub), math.atan2(vt, ut)
     if abs(ab - at) > 1e-9 or abs(ab - float(s.deflection_angle_solution)) > 1e-9:
         return dict(site='Riemann2D:slip-line-direction', detail='flow angle bottom %r top %r, reported %r' % (ab, at, s.deflection_angle_solution))
-    # the star states on either side of the slip line are what the public call returns next to it
+    if c['bottom'][3] == 0.0 and c['top'][3] == 0.0:
+        return _r2_adjacent(s, 'Riemann2D:slip-line-field')
+    return None
+
+
+def _r2_adjacent(s, site):
+    """the public call returns equal pressure and flow direction just below and just above the slip line"""
     cd = float(s.deflection_angle_solution)
     try:
         sol = s(np.array([[math.cos(cd - 1e-6), math.sin(cd - 1e-6)], [math.cos(cd + 1e-6), math.sin(cd + 1e-6)]]), 0.25)
     except Exception:
         return None
     if O.relerr(float(sol.pressure[0]), float(sol.pressure[1])) > 1e-9:
-        return dict(site='Riemann2D:slip-line-pressure', detail='returned pressure just below / above the slip line: %r / %r' % (sol.pressure[0], sol.pressure[1]))
+        return dict(site=site, detail='returned pressure just below / above the slip line: %r / %r (pattern %s, angles %r)'
+                    % (float(sol.pressure[0]), float(sol.pressure[1]), s.morphology, {k: np.asarray(v).tolist() for k, v in s.angles.items()}))
     a0, a1 = (math.atan2(float(sol.y_velocity[i]), float(sol.x_velocity[i])) for i in (0, 1))
     if abs(a0 - a1) > 1e-9:
-        return dict(site='Riemann2D:slip-line-direction', detail='returned flow angle just below / above the slip line: %r / %r' % (a0, a1))
+        return dict(site=site, detail='returned flow angle just below / above the slip line: %r / %r' % (a0, a1))
     return None
+
+
+def _r2_regions_check(c):
+    """FINDING reproduction (inflow angles != 0): the star states are returned on both sides of the slip line"""
+    r = _r2_solve(c)
+    if r is None:
+        return None
+    return _r2_adjacent(r[0], 'Riemann2D:shock-position')
+
+
+def _r2_case_angled(rng):
+    c = _r2_case(rng, False)
+    a = rng.uniform(-8., 8.)
+    c['bottom'][3], c['top'][3] = a + rng.uniform(1., 8.), a - rng.uniform(1., 8.)      # converging streams
+    return c
+
+
+r2_regions = O.make(_r2_case_angled, _r2_regions_check, 'c19.riemann2d.regions')
 
 
 r2_slipline = O.make(lambda rng: _r2_case(rng, True), _r2_slipline_check, 'c19.riemann2d.slipline')
@@ -534,7 +559,8 @@ def _r2_isentrope_check(c):
     return None
 
 
-r2_isentrope = O.make(lambda rng: _r2_case(rng, True), _r2_isentrope_check, 'c19.riemann2d.isentrope')
+# region membership is read off the reported wave angles, which are right only for inflow along the x axis (see r2_regions)
+r2_isentrope = O.make(lambda rng: _r2_case(rng, False), _r2_isentrope_check, 'c19.riemann2d.isentrope')
 
 
 def _r2_turning_check(c):
